@@ -15,6 +15,8 @@ type VerifSession struct {
 	Participants []uint64
 	Contributed  []uint64 // identifiers whose share is held, sorted
 	VVecLens     map[uint64]int
+	Dealt        map[uint64][]byte // the shares this instance dealt, by participant
+	OwnVVec      [][]byte          // its own verification vector
 }
 
 // VerifSessions returns the generation table as it is, without expiring anything.
@@ -33,6 +35,13 @@ func (s *Service) VerifSessions() []VerifSession {
 		sort.Slice(v.Contributed, func(i, j int) bool { return v.Contributed[i] < v.Contributed[j] })
 		for id, vv := range g.sharedVVecs {
 			v.VVecLens[id] = len(vv)
+		}
+		v.Dealt = map[uint64][]byte{}
+		for id, sk := range g.distributionSecrets {
+			v.Dealt[id] = sk.Serialize()
+		}
+		for _, pk := range g.sharedVVecs[g.id] {
+			v.OwnVVec = append(v.OwnVVec, pk.Serialize())
 		}
 		res = append(res, v)
 	}
